@@ -2,22 +2,44 @@ package ast
 
 import "github.com/xjslang/xjs/token"
 
-// AddMapping records a mapping for the token about to be written. Deferred
-// layout whitespace is written first, so that the mapping is recorded at the
-// token's first character (it is flushed whether or not a mapper is attached:
-// requesting a source map must not change the generated code).
+// deferredMapping is a mapping requested for the token about to be written. It
+// is recorded when that token is written, after the layout whitespace in front
+// of it and after a separating space, so that the segment starts exactly at the
+// token's first character.
+type deferredMapping struct {
+	set    bool
+	named  bool
+	line   int
+	column int
+	name   string
+}
+
+// AddMapping requests a mapping from the start of the next token to the given
+// source position. The generated code never depends on whether a mapper is attached.
 func (cw *CodeWriter) AddMapping(pos token.Position) {
-	cw.flushPending()
 	if cw.Mapper == nil {
 		return
 	}
-	cw.Mapper.AddMapping(pos.Line, pos.Column)
+	cw.deferred = deferredMapping{set: true, line: pos.Line, column: pos.Column}
 }
 
 func (cw *CodeWriter) AddNamedMapping(sourceLine, sourceColumn int, name string) {
-	cw.flushPending()
 	if cw.Mapper == nil {
 		return
 	}
-	cw.Mapper.AddNamedMapping(sourceLine, sourceColumn, name)
+	cw.deferred = deferredMapping{set: true, named: true, line: sourceLine, column: sourceColumn, name: name}
+}
+
+// commitMapping records the requested mapping at the mapper's current position.
+func (cw *CodeWriter) commitMapping() {
+	if !cw.deferred.set || cw.Mapper == nil {
+		return
+	}
+	m := cw.deferred
+	cw.deferred = deferredMapping{}
+	if m.named {
+		cw.Mapper.AddNamedMapping(m.line, m.column, m.name)
+	} else {
+		cw.Mapper.AddMapping(m.line, m.column)
+	}
 }
